@@ -39,6 +39,19 @@ static int write_file_data(sqfs_dir_iterator_t *it, const sqfs_dir_entry_t *ent)
 	return ret;
 }
 
+/* entries that were left out of the archive */
+static strlist_t skipped = { 0, 0, 0 };
+
+static bool was_skipped(const char *name)
+{
+	for (size_t i = 0; i < skipped.count; ++i) {
+		if (strcmp(skipped.strings[i], name) == 0)
+			return true;
+	}
+
+	return false;
+}
+
 static int write_entry(sqfs_dir_iterator_t *it, const sqfs_dir_entry_t *ent)
 {
 	static unsigned int record_counter;
@@ -54,6 +67,13 @@ static int write_entry(sqfs_dir_iterator_t *it, const sqfs_dir_entry_t *ent)
 			sqfs_perror(ent->name, "reading link target", ret);
 			return ret;
 		}
+	}
+
+	/* a hard link to something that is not in the archive */
+	if ((ent->flags & SQFS_DIR_ENTRY_FLAG_HARD_LINK) &&
+	    was_skipped(target)) {
+		sqfs_free(target);
+		return SQFS_ERROR_UNSUPPORTED;
 	}
 
 	ret = it->read_xattr(it, &xattr);
@@ -147,6 +167,13 @@ int main(int argc, char **argv)
 				goto out;
 			}
 			fprintf(stderr, "Skipping %s\n", ent->name);
+
+			if (strlist_append(&skipped, ent->name)) {
+				fputs("out of memory\n", stderr);
+				sqfs_free(ent);
+				goto out;
+			}
+
 			sqfs_free(ent);
 			continue;
 		}
@@ -178,6 +205,7 @@ out:
 	sqfs_drop(it);
 	sqfs_drop(out_file);
 	strlist_cleanup(&subdirs);
+	strlist_cleanup(&skipped);
 	free(root_becomes);
 	return status;
 }
